@@ -227,19 +227,31 @@ def main():
             fail('reduction {} forwards a foreign ufunc'.format(red))
         reds.append([red, ufunc.__name__, method])
     preds = []
-    vals = (2.0, 5.0, -3.0)
+    # finite data AND special values in a later part: the combiner must be NumPy's (a Python
+    # builtin min/max drops a NaN that is not in the first part)
+    vectors = [(2.0, 5.0, -3.0), (2.0, float('nan'), -3.0), (-1.0, 4.0, float('nan')),
+               (float('inf'), 1.0, 2.0), (1.0, float('-inf'), 0.5)]
+
+    def same(a, b):
+        a, b = float(a), float(b)
+        return (a != a and b != b) or a == b
     for red in ('sum', 'prod', 'min', 'max'):
         def comp(v, red=red):
             return type('C', (), {'ufuncs': type('U', (), {red: staticmethod(lambda: v)})()})()
-
-        class V(object):
-            def __iter__(self):
-                return iter([comp(v) for v in vals])
-        got = getattr(uf.ProductSpaceUfuncs(V()), red)()
-        match = [c for c in ('sum', 'prod', 'min', 'max') if getattr(np, c)(list(vals)) == got]
-        if len(match) != 1:
-            fail('product-space reduction {} gives {}'.format(red, got))
-        preds.append([red, match[0]])
+        match = None
+        for vals in vectors:
+            class V(object):
+                def __iter__(self, vals=vals):
+                    return iter([comp(v) for v in vals])
+            with np.errstate(all='ignore'):
+                got = getattr(uf.ProductSpaceUfuncs(V()), red)()
+                m = set(c for c in ('sum', 'prod', 'min', 'max')
+                        if same(getattr(np, c)(list(vals)), got))
+            match = m if match is None else (match & m)
+        if match is None or len(match) != 1:
+            fail('product-space reduction {} matches {} over finite and special-value '
+                 'vectors'.format(red, sorted(match or [])))
+        preds.append([red, sorted(match)[0]])
     json.dump({'raw': names,
                'rules': sorted([k[0], k[1], v] for k, v in rules.items()),
                'reds': reds,
